@@ -8,7 +8,7 @@ ID = "C14"
 PROPS_FILE = "theories/Props/C14.v"
 EXTRACT = ("theories/Extract/XC14.v", "c14",
            ["entry_mec_ok", "entry_chrystal_many", "entry_sweep_many", "entry_feret_max", "entry_feret_min_ok", "entry_feret_lower_ok",
-            "entry_fill_model", "entry_fill_check"])
+            "entry_fill_model", "entry_fill_check", "entry_fill_hyp"])
 PYX = {}
 RULE = ("label images of 1-20 objects drawn from: single pixel, two pixels, collinear runs (horizontal, vertical, "
         "diagonal, slope 1/s), squares and rectangles (co-circular corners), right and random lattice triangles, thin "
@@ -597,6 +597,10 @@ def _check_feret_fill(ctx, cases, outs, res):
                           "pair of parallel lines is closer than sqrt(%s/%s)" % (q, a[2][0], a[2][1]))
     if fl_jobs:
         rs = ctx.run_model("entry_fill_check", [j[1] for j in fl_jobs])
+        hy = ctx.run_model("entry_fill_hyp", [j[1][0] for j in fl_jobs])
+        for r in hy:
+            # hypothesis of theorem C14_fill_spec (distinct labels, convex vertex cycles) on this run's hulls
+            ctx.count("fill_spec_hypothesis_holds" if r == 1 else "fill_spec_hypothesis_FAILS(hull from convex_hull not convex)")
         for (k, a), r in zip(fl_jobs, rs):
             if res[k] is None and r != 1:
                 res[k] = ("fill_convex_hulls: output is not exactly the lattice points inside or on each hull polygon, "
